@@ -7,7 +7,8 @@ ASSUMPTIONS = [
     "safety (exactly-once, in order) is proved for every reachable state of the UdpProto transition system, i.e. all schedules and all loss/duplication/delay/reordering sequences; the tie to the Go code is the trace-acceptance run (every recorded session of the real endpoints must be accepted by the extracted acceptor, whose soundness accept_* is proved)",
     "liveness is partial: proved are enabledness of a transmission of the awaited segment (retransmission regardless of windows; first transmission if the send window is open), that its delivery advances the receiver, and the ranking lemma under the explicit fairness hypothesis fair_run (txCountLimit+1): fewer than txCountLimit consecutive transmissions of one segment are all lost. NOT proved: that retransmission timers/back-off fire, that acks/heartbeats reopen a closed window, CUBIC/RTT arithmetic, ack-path fairness; these are exercised by the driver's oracle under k-fair fault schedules in virtual time",
     "one mutex-protected output of a segment is one atomic step; sequence numbers are modelled unbounded (a session would need 2^32 segments to wrap)",
-    "sessions are not closed while data is in flight (graceful-close truncation under loss is property C03); traces are cut at the first application Close",
+    "sessions are not closed while data is in flight except in the close-race family, which is judged on safety only (graceful-close truncation under loss is property C03); after the first Close only emissions are recorded",
+    "window reopening: C02_window_reopen_enabled / C02_progress_by_ack remove the window hypothesis under the explicit assumption that an ack of the receiver is delivered; that the heartbeat timer fires is exercised by the exact-window-closure family (stall oracle), not proved",
     "application Write is recorded when it is called (not when it returns), so 'written' means handed to Write",
     "fix fixes/C02-server-write-before-open-response.diff is applied to /repo's working tree: before it, a server application writing >= 16 fragments right after Accept could get sequence numbers ahead of the open session response and the fault-free session was abandoned after txCountLimit retransmissions (oracle sig server-write-overtakes-open-response); the witness family runs on every check (-serverfirst 12)",
 ]
